@@ -392,6 +392,90 @@ def run_ops_impl(a, opts, ops):
 
 FUNCS = {}     # name -> callable(*args) for 'F' lines
 
+# ----------------------------------------------------------------------------- operands of `==` (C14)
+FOREIGN_KINDS = ("none", "int", "str", "bytes", "list", "object", "other")
+DEFAULT_OTHER = ("UDP", "PTPTime")           # classes used for `@other` when the line names none
+
+def _lib_class(tag):
+    """`pkg.mod.Class` -> the class object (for related classes that have no adapter, e.g. the legacy Chapter10)"""
+    import importlib
+    mod, _, name = tag.rpartition(".")
+    return getattr(importlib.import_module(mod), name)
+
+def foreign_operand(kind, tag, left):
+    if kind == "none":
+        return None
+    if kind == "int":
+        return 0
+    if kind == "str":
+        return "x"
+    if kind == "bytes":
+        return b""
+    if kind == "list":
+        return []
+    if kind == "object":
+        return object()
+    if kind == "other":
+        names = [tag] if tag else list(DEFAULT_OTHER)
+        for n in names:
+            ad = ADAPTERS.get(n)
+            x = ad.ctor() if ad is not None else _lib_class(n)()
+            if not isinstance(x, type(left)) and not isinstance(left, type(x)):
+                return x
+        raise ValueError("no unrelated class among %r" % (names,))
+    raise ValueError(kind)
+
+def _eq_ne(x, y):
+    """('ok', bool) when `x == y` and `x != y` are consistent booleans; otherwise what went wrong"""
+    st = guarded(lambda: x == y)
+    if st[0] != "ok":
+        return st
+    sn = guarded(lambda: x != y)
+    if sn[0] != "ok":
+        return ("err", "ne-" + str(sn[1]))
+    if not isinstance(st[1], bool) or not isinstance(sn[1], bool) or st[1] == sn[1]:
+        return ("err", "eq=%r,ne=%r" % (st[1], sn[1]))
+    return st
+
+def run_eq_operand(a, oa, toks):
+    """right-hand side `@kind[:tag]` (foreign operand) or `@sub:Cls | ops` / `@base:Cls | ops` (related class)"""
+    head = toks[0][1:]
+    kind, _, tag = head.partition(":")
+    if kind in ("sub", "base"):
+        ad = ADAPTERS.get(tag)
+        if ad is not None:
+            x = ad.ctor()
+        else:
+            x = _lib_class(tag)()
+        ok = (issubclass(type(x), type(oa)) if kind == "sub" else issubclass(type(oa), type(x))) and type(x) is not type(oa)
+        if not ok:
+            return "bad-operand"
+        for op in toks[1:]:
+            w = op.split()
+            if not w:
+                continue
+            if w[0] != "set":
+                return "bad-op"
+            # class-level attributes: assigned the way the left operand's adapter assigns them (the related
+            # class's own adapter, when it has one, knows the same attribute under the same name)
+            st = guarded(lambda: (ad or a).setf(x, w[1], pyval(parse_val(w[2]))))
+            if st[0] != "ok":
+                return "?"
+        st = _eq_ne(oa, x)
+    elif kind in FOREIGN_KINDS:
+        x = foreign_operand(kind, tag, oa)
+        st = _eq_ne(oa, x)
+        if st[0] == "ok":
+            # the other way round (`None == a`, `other == a`): Python falls back to / first asks the library class
+            rv = _eq_ne(x, oa)
+            if rv != st:
+                return "reflected:" + _res(rv) if rv[0] != "ok" else "reflected:%s" % rv[1]
+    else:
+        return "bad-operand"
+    if st[0] == "ok":
+        return "True" if st[1] else "False"
+    return _res(st)
+
 def run_line_impl(line):
     line = line.strip()
     if " :: " in line:
@@ -407,6 +491,10 @@ def run_line_impl(line):
         if kind == "E":
             x, y = body.split("##")
             oa, da, _ = run_ops_impl(a, opts, x.split("|"))
+            if y.strip().startswith("@"):
+                if da:
+                    return "?"
+                return run_eq_operand(a, oa, [t.strip() for t in y.strip().split("|")])
             ob, db, _ = run_ops_impl(a, opts, y.split("|"))
             if da or db:
                 return "?"
